@@ -379,9 +379,11 @@ def check_emission(rep, http, cfg):
                    site=key + '@' + cfg)
 
 
-def sibling_callees(f):
+def sibling_callees(f, http=None):
     out = set()
-    for _, t in f.calls():
+    # (the closures of the method count: a setter may apply its change through `self.configure(|req| req.set_body(body))`)
+    bodies = [f] + (http.closures_of(f) if http is not None else [])
+    for _, t in [x for g in bodies for x in g.calls()]:
         c = norm(t.get('callee') or '')
         if c.startswith(('core::option', 'core::ops', 'core::result', 'core::convert', 'core::panicking')):
             continue
@@ -398,7 +400,7 @@ def check_siblings(rep, http, cfg):
         if len(a) != 1 or len(b) != 1:
             rep.bad('R14.d', key + '|missing', 'builder method `%s` not found in both APIs (%d / %d)' % (name, len(a), len(b)), site=key + '@' + cfg)
             continue
-        ca, cb = sibling_callees(a[0]), sibling_callees(b[0])
+        ca, cb = sibling_callees(a[0], http), sibling_callees(b[0], http)
         rep.expect('R14.d', ca == cb and ca, key, 'both resolve to %s' % sorted(ca),
                    'builder method `%s` differs between the command API %s and the capability API %s' % (name, sorted(ca), sorted(cb)),
                    site=key + '@' + cfg)
@@ -421,6 +423,8 @@ def derived_from_param(f, operand, depth=3):
             return True
         if o.kind == 'call' and depth > 0 and any(derived_from_param(f, a, depth - 1) for a in o.term.get('args') or [] if 'l' in a):
             return True
+        if o.kind == 'agg' and depth > 0 and any(derived_from_param(f, a, depth - 1) for a in o.stmt['rv'].get('ops') or [] if 'l' in a):
+            return True     # a closure (or tuple) that carries the parameter
     return False
 
 
